@@ -26,12 +26,15 @@ def plan(tier):
     if tier == "quick":
         return [dict(n=10, blocks=22, flags="sats,runes,addresses", chain="regtest", update_every=3),
                 dict(n=3, blocks=125, flags="sats,runes,addresses", chain="regtest", update_every=25),
-                dict(n=3, blocks=18, flags="sats,runes", chain="testnet4", update_every=4)]
+                dict(n=3, blocks=18, flags="sats,runes", chain="testnet4", update_every=4),
+                dict(n=8, blocks=30, flags="sats,runes", chain="regtest", update_every=3, family="runes")]
     return [dict(n=120, blocks=30, flags="sats,runes,addresses", chain="regtest", update_every=3),
             dict(n=12, blocks=140, flags="sats,runes,addresses", chain="regtest", update_every=20),
             dict(n=40, blocks=24, flags="sats,runes,addresses,transactions", chain="testnet4", update_every=5),
             dict(n=40, blocks=24, flags="runes", chain="regtest", update_every=2),
-            dict(n=30, blocks=24, flags="sats", chain="regtest", update_every=1)]
+            dict(n=30, blocks=24, flags="sats", chain="regtest", update_every=1),
+            dict(n=80, blocks=40, flags="sats,runes", chain="regtest", update_every=3, family="runes"),
+            dict(n=30, blocks=40, flags="runes", chain="regtest", update_every=3, family="runes")]
 
 
 def make_trace(seed, tier, events=True, plan_override=None):
@@ -41,7 +44,7 @@ def make_trace(seed, tier, events=True, plan_override=None):
     with open(scen_path, "w") as out:
         for i, p in enumerate(parts):
             tmp = scen_path + ".part"
-            ordv(["gen", "--family", "ledger", "--seed", str(seed * 31 + i), "--n", str(p["n"]),
+            ordv(["gen", "--family", p.get("family", "ledger"), "--seed", str(seed * 31 + i), "--n", str(p["n"]),
                   "--blocks", str(p["blocks"]), "--flags", p["flags"], "--chain", p["chain"],
                   "--update-every", str(p["update_every"]), "--tag", "p%d" % i, "--out", tmp])
             with open(tmp) as f:
